@@ -10,6 +10,11 @@
 //   bool-sparse flat_boolean_numerical_domain<sparse_dbm_domain>   (z_bool_num_domain_t)
 //   pow-itv     powerset_domain<interval_domain>
 //   pow-zones   powerset_domain<split_dbm>
+// Release configuration (the default CMAKE_BUILD_TYPE of crab): assert() is compiled out.
+// With assertions on, split_oct aborts on `top || x` (assert(left.m_potential.size() > 0)).
+#ifndef NDEBUG
+#define NDEBUG
+#endif
 #include "domhist.hpp"
 #include <crab/domains/intervals.hpp>
 #include <crab/domains/split_dbm.hpp>
